@@ -544,7 +544,26 @@ func c9termUnits(tier string) []mc.Unit {
 				r.AddExplore(st, "termination/"+n)
 			}
 			r.AddNontrivial(int64(st.Execs))
-			r.Bound("termination/"+n, fmt.Sprintf("non-preemptive schedules, horizon 2000 steps / 500 tasks; %d executions", st.Execs))
+			// every orientation mask of the same pool on the default schedule (divergence does not depend on the schedule)
+			var masks int64
+			for mask := 1; mask < 1<<len(p); mask++ {
+				fr := make([]c9frag, len(p))
+				for i := range p {
+					fr[i] = p[i]
+					if mask&(1<<i) != 0 {
+						fr[i] = p[i].flip()
+					}
+				}
+				once(func(c *mc.Ctx) {
+					out, parts := runLigate(c, toClone(fr), sched.Options{Horizon: 2000, MaxTasks: 500})
+					c9judge(r, fmt.Sprintf("pool=%s flipped=%b", n, mask), []string{"termination", n}, nil, out, parts, want)
+				})
+				masks++
+			}
+			r.Eval(masks)
+			r.AddStates(masks)
+			r.AddTransitions(masks)
+			r.Bound("termination/"+n, fmt.Sprintf("all non-preemptive schedules of the pool as designed (%d executions) + every orientation mask on the default schedule (%d); horizon 2000 steps / 500 tasks", st.Execs, masks))
 			r.Sample(fmt.Sprintf("pool %s (%d fragments): overhang cycle excluding a seed; expected rings: %s", n, len(p), setStr(want)))
 		}})
 	}
